@@ -156,11 +156,15 @@ SeedSibling == {Node(o, <<Node(q1, <<La, d1, Node("EQUAL", <<La, La>>)>>), Node(
           \cup {Node("IMPERATIVE", <<La, Node("FORALL", <<La, d1, Node("EQUAL", <<La, La>>)>>), It(La, d2)>>) : d1 \in SibDoms, d2 \in SibDoms}
 Seeds == UNION {SeedFilter, SeedRec, SeedImp, SeedBind, SeedCall, SeedScope, SeedAxiom, SeedLazy, SeedNested, SeedNested2, SeedSibling}
 
+\* value classes of the context: sets and structures with data are values, a function has the class of its body
+GC0 == [n \in {"X1", "C1", "S1", "S2", "A1"} |-> "value"]
+GC == [n \in DOMAIN GC0 \cup DOMAIN FD |-> IF n \in DOMAIN GC0 THEN GC0[n] ELSE VClass(FD[n].body, GC0, FD, {})]
 NoLoc == [x \in {} |-> TAny]
 NoVal == [x \in {} |-> 0]
 Outcome(r, t) == IF r.ok THEN [ok |-> TRUE, v |-> EncU(r.v, t), why |-> ""] ELSE [ok |-> FALSE, v |-> 0, why |-> r.v]
 Case(e) == LET t == TypeOf(e, G, F, NoLoc, FALSE) IN
   [e |-> e, ty |-> IF IsBad(t) THEN "BAD:" \o t.id ELSE TypeStr(t),
+   vc |-> IF IsBad(t) THEN "" ELSE VClass(e, GC, FD, {}),
    vals  |-> IF IsBad(t) THEN <<>> ELSE [i \in 1..Len(Interps) |-> Outcome(Eval(e, Interps[i], FD, NoVal), t)],
    r0 |-> Render(e, FALSE), r1 |-> Render(e, TRUE),
    kvals |-> IF IsBad(t) THEN <<>> ELSE [i \in 1..Len(Interps) |-> Outcome(EvalK(e, Interps[i], FD, NoVal), t)]]
